@@ -175,6 +175,16 @@ def run(fx, rep, tier):
         r1_r2(facts, sub)
         r3_writers(facts, sub)
         r4_no_index_mutation(facts, sub)
+        if cfg == "dev":
+            sub.rule("C18-R5", "the descriptions reach the user in evaluation order, each with its own constant: the command line prints "
+                               "them in recorded order (shared with C19-R4)")
+            from . import c19
+            s5 = type(rep)(rep.prop, rep.tier)
+            c19.run({"dev": facts}, s5, "quick")
+            for o in s5.obls:
+                if o["rule"] == "C19-R4":
+                    o["rule"] = "C18-R5"
+                    sub.obls.append(o)
         if sub is not rep:
             for o in sub.obls:
                 o["key"] += "[rel]"
